@@ -1546,4 +1546,5 @@ func runC10(c *core.Ctx) {
 			panic(core.HarnessError("C10: a sub-check judged nothing (vacuous run)"))
 		}
 	}
+	c10BoundHistories(c) // sub-check bound-histories (c10_history.go)
 }
